@@ -36,6 +36,10 @@ def _check_effect_family(args):
     tt = [":".join(wr.get(f, f) for f in t) for t in terms]
     if render == "joint":
         text = "y ~ (" + ("" if case["icpt"] else "0 + ") + " + ".join(tt) + f" | {gtxt})"
+    elif render == "margin_icpt":
+        # the group intercept of a MARGIN of the grouping factor is in the model, its own is not:
+        # the effect under g:k is still coded without reference to an intercept
+        text = "y ~ (0 + " + " + ".join(tt) + " | g:k) + (1 | g)"
     elif render == "implicit":
         # the group intercept is left implicit: (e | g) means (1 + e | g)
         text = "y ~ (" + " + ".join(tt) + f" | {gtxt})"
@@ -108,6 +112,9 @@ def _check_effect_family(args):
             return ({"clause": "group_columns_linearly_dependent", **kf}, base), "bad"
         if rxb != rb or rx != rb:
             return ({"clause": "group_columns_do_not_span_group_by_cell_means", **kf}, base), "bad"
+    if render == "margin_icpt":
+        covered += np.asarray(dm.group["1|g"]).shape[1] if "1|g" in dm.group.terms else 0
+        claimed.add("1|g")
     if covered != xall.shape[1] or claimed != set(dm.group.terms):
         return ({"clause": "term_blocks_do_not_tile_group_matrix", **kf}, dict(base, covered=int(covered))), "bad"
     return None, "ok"
@@ -128,6 +135,7 @@ def effect_families(rep, seed, sample, gshapes):
     nog = [c for c in cases if all(f != "k" for t in c["terms"] for f in t)]
     jobs += [(c, seed, g, rd, "plain") for c in nog for g in ("g + k", "g/k") for rd in (["joint", "implicit"] if c["icpt"] else ["joint"])]
     jobs += [(c, seed, "g", "implicit", "plain") for c in cases if c["icpt"]]
+    jobs += [(c, seed, "g:k", "margin_icpt", "plain") for c in nog if not c["icpt"]]
     results = common.pool_map(_check_effect_family, jobs)
     for (c, _, g, rd, at), (prob, kind) in zip(jobs, results):
         rep.cov["evaluations"] += 1
